@@ -10,23 +10,23 @@ VERIF = os.path.dirname(os.path.dirname(os.path.abspath(__file__)))
 CHECKS = {
     "C01": ("exploration",
             "property-based testing (rapid): typed requests encoded by an independent BER encoder, field-by-field comparison with the handler's decoded message, over TCP pipelines and (for volume) through the decode hook",
-            "Generated typed requests of all seven operations (arbitrary byte strings, message IDs up to 2^31-1, go-ldap-round-trippable filters from a recursive grammar, 0..4 attributes/changes/values, 0..4 controls of every kind) are encoded by the harness's own codec, sent pipelined to a live server whose every route records a deep copy of what Get*Message returns, and compared field by field (filter semantically via go-ldap CompileFilter); unsupported operations and bind versions != 3 must reach no handler. Exploration: strong on swapped/dropped/truncated fields, cannot show absence.",
-            "trusts the independent encoder (wire) to produce what the typed value says (cross-checked by go-ldap for filters) and go-ldap's CompileFilter for filter equivalence; VerifMessageInfo hook is used to read the extended-operation name/message ID which the public API does not expose One case in six is a sequential session that reuses message IDs as soon as the earlier exchange has completed, with handlers lingering after they answered.",
+            "Generated typed requests of all seven operations (arbitrary byte strings, message IDs up to 2^31-1, go-ldap-round-trippable filters from a recursive grammar, 0..4 attributes/changes/values, 0..4 controls of every kind) are encoded by the harness's own codec, sent pipelined to a live server whose every route records a deep copy of what Get*Message returns, and compared field by field (filter semantically via go-ldap CompileFilter); unsupported operations and bind versions != 3 must reach no handler. Exploration: strong on swapped/dropped/truncated fields, cannot show absence. One case in six is a sequential session that reuses message IDs as soon as the earlier exchange has completed, with handlers lingering after they answered.",
+            "trusts the independent encoder (wire) to produce what the typed value says (cross-checked by go-ldap for filters) and go-ldap's CompileFilter for filter equivalence; VerifMessageInfo hook is used to read the extended-operation name/message ID which the public API does not expose",
             "DESIGN.md §4 C01"),
     "C03": ("exploration",
             "model-based testing: exhaustive enumeration of small route tables x all requests (k<=1 quick, k<=2 thorough) plus rapid-generated tables up to 8 routes, against a reference model of first-match routing",
-            "Every route table with up to 2 routes over the alphabet (55 route kinds incl. case variants and all scopes; default route absent/present/registered twice) is crossed with all 59 requests on a live server; per request the handler-invocation log (complete once OnClose fired) must contain exactly the handler the reference model names and the client must get exactly one response; the built-in refusal must carry code 53, the request's message ID and the response tag of the request's operation, and the go-ldap client call must return 53 instead of timing out. Exhaustive up to the bound, random beyond.",
-            "trusts the reference model written from the statement; relies on OnClose-after-handlers (C08) to know the invocation log is complete One random table in five has up to 40 routes.",
+            "Every route table with up to 2 routes over the alphabet (55 route kinds incl. case variants and all scopes; default route absent/present/registered twice) is crossed with all 59 requests on a live server; per request the handler-invocation log (complete once OnClose fired) must contain exactly the handler the reference model names and the client must get exactly one response; the built-in refusal must carry code 53, the request's message ID and the response tag of the request's operation, and the go-ldap client call must return 53 instead of timing out. Exhaustive up to the bound, random beyond. One random table in five has up to 40 routes.",
+            "trusts the reference model written from the statement; relies on OnClose-after-handlers (C08) to know the invocation log is complete",
             "DESIGN.md §4 C03"),
     "C04": ("exploration",
             "property-based testing (rapid): response programs (constructor x documented options x setter sequences) executed in real handlers, frames parsed by an independent strict BER/LDAP parser and compared with a last-value-wins model; go-ldap as second reader",
-            "Every generated response program is executed inside a handler on a real pipelined request with a random message ID; each frame received is parsed strictly by the harness's own codec and compared with the model (message ID, protocolOp tag, result code, matched DN, diagnostic message, entry DN, attributes in AddAttribute order / WithAttributes as a set, controls), and re-read by go-ldap's GetLDAPError / DecodeControl. Exploration over a large generated space; no absence claim.",
-            "trusts the strict parser (wire) and the model of documented options (doc comments of request.go); values nobody set ('Unused' placeholders) are not compared Connections are plain, TLS or StartTLS-upgraded, the server logs at error or debug level, and an Unbind or half-close may follow the requests in the same client write.",
+            "Every generated response program is executed inside a handler on a real pipelined request with a random message ID; each frame received is parsed strictly by the harness's own codec and compared with the model (message ID, protocolOp tag, result code, matched DN, diagnostic message, entry DN, attributes in AddAttribute order / WithAttributes as a set, controls), and re-read by go-ldap's GetLDAPError / DecodeControl. Exploration over a large generated space; no absence claim. Connections are plain, TLS or StartTLS-upgraded, the server logs at error or debug level, and an Unbind or half-close may follow the requests in the same client write.",
+            "trusts the strict parser (wire) and the model of documented options (doc comments of request.go); values nobody set ('Unused' placeholders) are not compared",
             "DESIGN.md §4 C04"),
     "C02": ("exploration",
             "exhaustive structured BER mutation (all single- and double-point mutants of every canonical request) + property-based mutation chains (rapid) + coverage-guided native fuzzing, all through the server's own decode path; end-to-end re-confirmation over TCP",
-            "The complete single-point mutant set of every canonical request (7 operations x every control kind, control values opened up) in both tiers and the complete double-point set (about 5*10^7 streams) in the thorough tier are pushed through (*conn).readRequest via the verif hook with no recover in between; any panic is a violation fingerprinted by panicking gldap function + panic class. rapid adds mutation chains over generated requests, go test -fuzz adds coverage-guided byte streams, and a TCP part re-confirms against a live server by looking for the connection-level recover's log record. Exhaustive only over the stated mutation space; beyond it exploration.",
-            "trusts Go's recover to observe panics; VerifDecodeStream builds a conn over an in-memory reader and calls the same readRequest the read loop calls (hook reviewed, add-only); asn1-ber's own robustness is out of scope (length cap 1 MiB, inputs <= 64 KiB) The live server of the TCP part logs at error, debug or trace level.",
+            "The complete single-point mutant set of every canonical request (7 operations x every control kind, control values opened up) in both tiers and the complete double-point set (about 5*10^7 streams) in the thorough tier are pushed through (*conn).readRequest via the verif hook with no recover in between; any panic is a violation fingerprinted by panicking gldap function + panic class. rapid adds mutation chains over generated requests, go test -fuzz adds coverage-guided byte streams, and a TCP part re-confirms against a live server by looking for the connection-level recover's log record. Exhaustive only over the stated mutation space; beyond it exploration. The live server of the TCP part logs at error, debug or trace level.",
+            "trusts Go's recover to observe panics; VerifDecodeStream builds a conn over an in-memory reader and calls the same readRequest the read loop calls (hook reviewed, add-only); asn1-ber's own robustness is out of scope (length cap 1 MiB, inputs <= 64 KiB)",
             "DESIGN.md §4 C02"),
     "C05": ("exploration",
             "property-based scenario testing (rapid): N concurrent writers on one connection released by a barrier, strict incremental parse of the received stream + multiset/per-writer-order oracle; same scenarios under the Go race detector",
@@ -40,8 +40,8 @@ CHECKS = {
             "DESIGN.md §4 C06"),
     "C07": ("fault_enumeration",
             "fault enumeration in worker child processes: complete enumeration fault kind x operation x before/after write x panic value, plus rapid-generated surrounding traffic; oracle = child survives + bystander results",
-            "Every fault of the enumeration (handler panic with a string / error / nil-dereference / custom value, before and after writing, in the handler of each operation incl. StartTLS, unbind and the default route; malformed frame; RST mid-frame; truncated frame + FIN; handler writing to a client that has gone; client that never reads megabytes; descriptor exhaustion at accept with RLIMIT_NOFILE lowered in the child) is injected into verified request/response traffic of bystander connections inside a child process. The child must survive, Run must not have returned, every bystander response must be correct and a new connection must be served. Complete over the enumeration in both tiers; traffic around it is generated.",
-            "the parent attributes a child death/hang to the scenario whose begin marker was seen last and re-runs the rest in a fresh child; panic recovery is enabled (the statement's default) The never-reading client may also send an Unbind, half-close or a malformed frame while keeping its socket open; descriptor shortages last 30..1200 ms or repeat up to 40 times.",
+            "Every fault of the enumeration (handler panic with a string / error / nil-dereference / custom value, before and after writing, in the handler of each operation incl. StartTLS, unbind and the default route; malformed frame; RST mid-frame; truncated frame + FIN; handler writing to a client that has gone; client that never reads megabytes; descriptor exhaustion at accept with RLIMIT_NOFILE lowered in the child) is injected into verified request/response traffic of bystander connections inside a child process. The child must survive, Run must not have returned, every bystander response must be correct and a new connection must be served. Complete over the enumeration in both tiers; traffic around it is generated. The never-reading client may also send an Unbind, half-close or a malformed frame while keeping its socket open; descriptor shortages last 30..1200 ms or repeat up to 40 times.",
+            "the parent attributes a child death/hang to the scenario whose begin marker was seen last and re-runs the rest in a fresh child; panic recovery is enabled (the statement's default)",
             "DESIGN.md §4 C07"),
     "C08": ("exploration",
             "property-based scenario testing (rapid): connection endings x in-flight handler states x transports with gates owned by the harness; event-history invariants over a global sequence counter; goroutine and descriptor census",
@@ -60,18 +60,18 @@ CHECKS = {
             "DESIGN.md §4 C10"),
     "C11": ("fault_enumeration",
             "fault enumeration in worker child processes: every single connection state and every pair of states at Stop time (with/without concurrent second Stop), plus rapid-generated multisets of up to 16 connections; bounded-wait oracle backed by a stable goroutine census",
-            "Connection states at the moment Stop is called - idle, idle after served requests, first k bytes of a frame sent, TCP connected to a TLS listener with no / partial ClientHello, idle inside a TLS session, pipelining as fast as it can, requesting a 13 MB answer and never reading (alone, followed by an Unbind, together with a StartTLS request, or five such requests pipelined), StartTLS answered but handshake never started; with and without one-hour read/write timeouts configured - are enumerated completely for singles and pairs and generated beyond; clients never close by themselves. Stop must return and Run must return nil within 5 s (a correct server needs at most the 500 ms write grace); a miss is a violation only with two identical goroutine censuses 0.5 s apart (deadlock) or, when the census keeps changing, if Stop still has not returned after 10 more seconds during which the process demonstrably got CPU (live-lock); otherwise inconclusive.",
-            "liveness decided as bounded wait + stability evidence; hung children are killed by the parent Clients may also connect WHILE Stop is being called (4..64 per dialer, plain and TLS listeners, with and without one-hour timeouts), and storms of 150 start / connect-flood / Stop cycles run inside one worker scenario (Stop racing the accept loop).",
+            "Connection states at the moment Stop is called - idle, idle after served requests, first k bytes of a frame sent, TCP connected to a TLS listener with no / partial ClientHello, idle inside a TLS session, pipelining as fast as it can, requesting a 13 MB answer and never reading (alone, followed by an Unbind, together with a StartTLS request, or five such requests pipelined), StartTLS answered but handshake never started; with and without one-hour read/write timeouts configured - are enumerated completely for singles and pairs and generated beyond; clients never close by themselves. Stop must return and Run must return nil within 5 s (a correct server needs at most the 500 ms write grace); a miss is a violation only with two identical goroutine censuses 0.5 s apart (deadlock) or, when the census keeps changing, if Stop still has not returned after 10 more seconds during which the process demonstrably got CPU (live-lock); otherwise inconclusive. Clients may also connect WHILE Stop is being called (4..64 per dialer, plain and TLS listeners, with and without one-hour timeouts), and storms of 150 start / connect-flood / Stop cycles run inside one worker scenario (Stop racing the accept loop).",
+            "liveness decided as bounded wait + stability evidence; hung children are killed by the parent",
             "DESIGN.md §4 C11"),
     "C12": ("exploration",
             "property-based scenario testing (rapid) of Stop/Run orders and connection states with harness-owned gates; counters sampled at the instant Stop returns + bind probe on the port",
-            "Orders {Stop before Run, concurrently with Run's start after generated yields, after Ready, twice in sequence, twice concurrently} x 0..6 connections whose handler / OnClose callback is held on a gate that a TIMER opens 20..250 ms after Stop was called (every client has already left, so C11's hang cannot mask the property). At the instant Stop returns the in-flight handler counter must be 0 and completed OnClose callbacks must equal accepted connections - facts read from counters, not timing guesses; after Run returned nil the port must refuse connections and be bindable again.",
-            "the exact interleaving of Stop with Run's listen step is reached by repetition over yield counts, not controlled Optionally silent clients connect while Stop is being called (half of those cases as storms of 20..80 start / flood / Stop cycles, garbage collector off): afterwards the process must hold no socket descriptor beyond the harness's own client sockets and no OnClose may complete after Stop returned; the handler of the Unbind route may itself be the handler that is still running.",
+            "Orders {Stop before Run, concurrently with Run's start after generated yields, after Ready, twice in sequence, twice concurrently} x 0..6 connections whose handler / OnClose callback is held on a gate that a TIMER opens 20..250 ms after Stop was called (every client has already left, so C11's hang cannot mask the property). At the instant Stop returns the in-flight handler counter must be 0 and completed OnClose callbacks must equal accepted connections - facts read from counters, not timing guesses; after Run returned nil the port must refuse connections and be bindable again. Optionally silent clients connect while Stop is being called (half of those cases as storms of 20..80 start / flood / Stop cycles, garbage collector off): afterwards the process must hold no socket descriptor beyond the harness's own client sockets and no OnClose may complete after Stop returned; the handler of the Unbind route may itself be the handler that is still running.",
+            "the exact interleaving of Stop with Run's listen step is reached by repetition over yield counts, not controlled",
             "DESIGN.md §4 C12"),
     "C13": ("exploration",
             "property-based scenario testing (rapid) of StartTLS sessions with generated handler timings through a recording wiretap proxy; handshake/decoding oracle + byte classification of the wire",
-            "1..16 parallel sessions upgrade through a wiretap; the StartTLS handler's delays before the reply, between reply and handshake (client's ClientHello already on the wire) and after the handshake are generated; afterwards 1..40 generated requests run inside the tunnel, sequentially or pipelined. Conforming clients (raw independent client and go-ldap) must complete the handshake for every timing, every tunnel request must be decoded field-by-field as in C01 and answered once, and every captured byte after the StartTLS exchange must be a TLS record in both directions.",
-            "no operation is outstanding when StartTLS is sent (RFC 4511 4.14.1); TLS record classification is by content type/version/length only One raw session in five pipelines a complete plaintext request behind its StartTLS request: it must never be dispatched or answered, neither before nor inside the tunnel.",
+            "1..16 parallel sessions upgrade through a wiretap; the StartTLS handler's delays before the reply, between reply and handshake (client's ClientHello already on the wire) and after the handshake are generated; afterwards 1..40 generated requests run inside the tunnel, sequentially or pipelined. Conforming clients (raw independent client and go-ldap) must complete the handshake for every timing, every tunnel request must be decoded field-by-field as in C01 and answered once, and every captured byte after the StartTLS exchange must be a TLS record in both directions. One raw session in five pipelines a complete plaintext request behind its StartTLS request: it must never be dispatched or answered, neither before nor inside the tunnel.",
+            "no operation is outstanding when StartTLS is sent (RFC 4511 4.14.1); TLS record classification is by content type/version/length only",
             "DESIGN.md §4 C13"),
     "C14": ("exploration",
             "property-based round-trip testing (rapid) of controls in both directions with three independent encoders / two independent decoders; constructor law for the Behera control",
@@ -80,33 +80,33 @@ CHECKS = {
             "DESIGN.md §4 C14"),
     "C15": ("exploration",
             "Go race detector over the generated concurrent workloads of C05, C06, C08, C09, C10, C12, C13, C14, C17, C19, C20, a generated directory workload (Set*/getters vs. client traffic) and an independent-Stop workload; reports attributed by first non-stdlib frame of both stacks",
-            "The -race build of the harness runs the generated scenario families of the concurrency properties (C05 C06 C08 C09 C10 C12 C13 C14-concurrent C17 C19 C20), a directory workload in which a goroutine calls every Set* method and getter while 2..8 clients are served over plain/TLS/StartTLS, and a workload in which Stop is called from a goroutine that has no happens-before edge from the clients' traffic. Every race report is parsed by the driver; it counts iff in BOTH stacks the first frame outside the Go standard library lies in github.com/jimlambrt/gldap/... (fingerprint = unordered function pair). The detector generalises each execution to all schedules with the same synchronisation structure; code no workload executes is not covered.",
-            "trusts the race detector's happens-before analysis; the harness never mutates entries after handing them to Set* and never touches what getters return, so harness-vs-gldap reports cannot come from its own accesses; other reports are listed in the evidence file but do not decide the property TestC03Random (pipelined, many unroutable requests) is a race workload too.",
+            "The -race build of the harness runs the generated scenario families of the concurrency properties (C05 C06 C08 C09 C10 C12 C13 C14-concurrent C17 C19 C20), a directory workload in which a goroutine calls every Set* method and getter while 2..8 clients are served over plain/TLS/StartTLS, and a workload in which Stop is called from a goroutine that has no happens-before edge from the clients' traffic. Every race report is parsed by the driver; it counts iff in BOTH stacks the first frame outside the Go standard library lies in github.com/jimlambrt/gldap/... (fingerprint = unordered function pair). The detector generalises each execution to all schedules with the same synchronisation structure; code no workload executes is not covered. TestC03Random (pipelined, many unroutable requests) is a race workload too.",
+            "trusts the race detector's happens-before analysis; the harness never mutates entries after handing them to Set* and never touches what getters return, so harness-vs-gldap reports cannot come from its own accesses; other reports are listed in the evidence file but do not decide the property",
             "DESIGN.md §4 C15"),
     "C16": ("exploration",
             "property-based testing (rapid) of totality, inverse and ordering laws + exhaustive 2^24 SID enumeration + native fuzzing of ConvertString",
-            "Generated-input search against explicit oracles: no panic under recover for every exported helper/constructor with options drawn from ALL exported options (every subset/order reachable), ConvertString(wrap(s)) == s with an independent BER encoder, SIDBytesToString(SIDBytes(r,a)) == S-r-a (exhaustive over all 2^24 pairs in the thorough tier), NewEntry strictly sorted and stable, Values/ByteValues agreement after AddValue sequences; response constructors run inside real handlers on real requests and are written to the socket. Finds violations, cannot show absence beyond the enumerated SID space.",
-            "trusts the harness's own BER encoder (wire) for the wrap direction and Go's recover for panic detection A worker-child part calls the control constructors from 2..16 goroutines at once with control types never seen before in the process (a Go fatal error cannot be recovered, so process death is the signal).",
+            "Generated-input search against explicit oracles: no panic under recover for every exported helper/constructor with options drawn from ALL exported options (every subset/order reachable), ConvertString(wrap(s)) == s with an independent BER encoder, SIDBytesToString(SIDBytes(r,a)) == S-r-a (exhaustive over all 2^24 pairs in the thorough tier), NewEntry strictly sorted and stable, Values/ByteValues agreement after AddValue sequences; response constructors run inside real handlers on real requests and are written to the socket. Finds violations, cannot show absence beyond the enumerated SID space. A worker-child part calls the control constructors from 2..16 goroutines at once with control types never seen before in the process (a Go fatal error cannot be recovered, so process death is the signal).",
+            "trusts the harness's own BER encoder (wire) for the wrap direction and Go's recover for panic detection",
             "DESIGN.md §4 C16"),
     "C17": ("exploration",
             "property-based testing (rapid) over listen addresses (valid, malformed, port already bound) with poller goroutines spinning on Ready from before Run; dial-on-first-true oracle",
-            "0..8 pollers spin on Ready() from before Run is called under GOMAXPROCS 1..16; the first that sees true dials at once and a bind must be served; when Run returns an error (15 malformed forms, or a port the harness holds on both loopback families) no poller may ever have seen true and Ready must be false afterwards. The Go scheduler is not controlled: a window between flag and listen is found by repetition only.",
-            "uses the VerifListenAddr hook to learn the address actually bound; malformed-form list follows validateAddrPort's documented cases After a failing Run the caller may retry on the same Server (further failing Runs, then a valid address); a worker-child part puts a Ready server through 1..12 descriptor shortages of 5..1200 ms and demands that whenever Ready is still true a new connection is served.",
+            "0..8 pollers spin on Ready() from before Run is called under GOMAXPROCS 1..16; the first that sees true dials at once and a bind must be served; when Run returns an error (15 malformed forms, or a port the harness holds on both loopback families) no poller may ever have seen true and Ready must be false afterwards. The Go scheduler is not controlled: a window between flag and listen is found by repetition only. After a failing Run the caller may retry on the same Server (further failing Runs, then a valid address); a worker-child part puts a Ready server through 1..12 descriptor shortages of 5..1200 ms and demands that whenever Ready is still true a new connection is served.",
+            "uses the VerifListenAddr hook to learn the address actually bound; malformed-form list follows validateAddrPort's documented cases",
             "DESIGN.md §4 C17"),
     "C18": ("exploration",
             "property-based testing (rapid) of offending client behaviours against TLS-configured servers (repository's own GetTLSConfig, with and without mTLS) and an mTLS test directory, concurrently with conforming bystanders",
-            "Offenders (plaintext requests of all 7 operations, random bytes, silent connections, partial ClientHello, TLS without certificate, certificate of another CA or self-signed - presented even when the server's CA list does not match) must never cause a handler entry (recording handler keyed by reserved message IDs; for the directory: the Add they send must have no effect visible to a conforming client) nor receive a response; valid clients and bystanders must be served.",
-            "handler execution inside testdirectory is observed through its effect (entry added); teardown is awaited through OnClose counts on the plain servers and a 20 ms grace on the directory TLS offenders also use no SNI or a foreign / case-variant server name, and any handler entry for a message no client sent (e.g. an unbind handler run for a connection without TLS session) is a violation.",
+            "Offenders (plaintext requests of all 7 operations, random bytes, silent connections, partial ClientHello, TLS without certificate, certificate of another CA or self-signed - presented even when the server's CA list does not match) must never cause a handler entry (recording handler keyed by reserved message IDs; for the directory: the Add they send must have no effect visible to a conforming client) nor receive a response; valid clients and bystanders must be served. TLS offenders also use no SNI or a foreign / case-variant server name, and any handler entry for a message no client sent (e.g. an unbind handler run for a connection without TLS session) is a violation.",
+            "handler execution inside testdirectory is observed through its effect (entry added); teardown is awaited through OnClose counts on the plain servers and a 20 ms grace on the directory",
             "DESIGN.md §4 C18"),
     "C19": ("exploration",
             "property-based testing (rapid) of the bind decision against a three-line reference predicate, over plain/TLS/StartTLS with two independent clients",
-            "Generated user sets (prefix/extension/case-variant/duplicate DNs, missing/empty/multi-valued passwords), both anonymous-bind settings (Set* on a running directory and WithDefaults at Start) and bind DN/password pairs related to the user set are sent through go-ldap SimpleBind and the raw independent client; the result code must be success iff the reference predicate of the statement holds, else 49. Exploration.",
-            "trusts the reference predicate (copied from the statement) and go-ldap's result-code reporting; the shared directory is reconfigured between cases with no request in flight Passwords include trailing NUL bytes and 63..71-byte values differing only after byte 64; one case in three first alternates SetUsers between an older variant and the final user set 2..64 times while 2..8 clients bind in a loop, and judges its binds when nothing is in flight.",
+            "Generated user sets (prefix/extension/case-variant/duplicate DNs, missing/empty/multi-valued passwords), both anonymous-bind settings (Set* on a running directory and WithDefaults at Start) and bind DN/password pairs related to the user set are sent through go-ldap SimpleBind and the raw independent client; the result code must be success iff the reference predicate of the statement holds, else 49. Exploration. Passwords include trailing NUL bytes and 63..71-byte values differing only after byte 64; one case in three first alternates SetUsers between an older variant and the final user set 2..64 times while 2..8 clients bind in a loop, and judges its binds when nothing is in flight.",
+            "trusts the reference predicate (copied from the statement) and go-ldap's result-code reporting; the shared directory is reconfigured between cases with no request in flight",
             "DESIGN.md §4 C19"),
     "C20": ("exploration",
             "stateful model-based testing (rapid-generated operation sequences) of the test directory against an in-memory reference store, full read-back after every step",
-            "Sequences of up to 30 Add/Modify/Delete/Search/SetUsers/SetGroups steps by 1..3 clients are applied to a running directory and to a map-based model in lock-step; after every step every DN of the pool is searched and compared with the model (existence, attributes, values modulo one level of OCTET STRING wrapping), result codes 68/32/0 are checked per operation. Exploration over histories; entry DNs are fixed-width so none is a substring of another (the statement's precondition).",
-            "trusts the reference model; replace of an attribute that does not exist is left unspecified (untracked until a delete-attribute), group modification is not demanded Four of the ten pool users have RDN values with non-ASCII characters, an escaped comma, #/+/= and an upper-case attribute type; SetTokenGroups and tokenGroups searches by SID are steps too.",
+            "Sequences of up to 30 Add/Modify/Delete/Search/SetUsers/SetGroups steps by 1..3 clients are applied to a running directory and to a map-based model in lock-step; after every step every DN of the pool is searched and compared with the model (existence, attributes, values modulo one level of OCTET STRING wrapping), result codes 68/32/0 are checked per operation. Exploration over histories; entry DNs are fixed-width so none is a substring of another (the statement's precondition). Four of the ten pool users have RDN values with non-ASCII characters, an escaped comma, #/+/= and an upper-case attribute type; SetTokenGroups and tokenGroups searches by SID are steps too.",
+            "trusts the reference model; replace of an attribute that does not exist is left unspecified (untracked until a delete-attribute), group modification is not demanded",
             "DESIGN.md §4 C20"),
 }
 
